@@ -33,6 +33,8 @@ ASSUMPTIONS = [
     "one [] expression, multi-dimensional integer indexers, dask indexers in vindex, None in vindex/blocks) are not "
     "generated, and an explicit NotImplementedError is counted as out-of-domain, not as a violation",
     "contents are arange so every element identifies its position",
+    "length-1 axes split into several blocks by an explicit zero-size chunk are not generated (C19's listed finding "
+    "broadcast-multiblock-len1-axis: chunk unification treats them as broadcast axes)",
     "vindex with slices follows the documented order (dimensions spanned by the point arrays first, then the slices)",
 ]
 TECHNIQUE = "differential testing against NumPy: exhaustive slices/takes x all chunkings, Hypothesis-generated multi-axis indices"
@@ -123,12 +125,25 @@ def both_raise_index_error(fn, want, sig, what):
 def base_sig(case):
     arr = case["array"]
     items = case["index"]
+    # for .blocks the indexed "array" is the grid of blocks
+    lengths = [len(c) for c in arr["chunks"]] if case["mode"] == "blocks" else arr["shape"]
     return dict(
         mode=case["mode"],
         fancy=C.fancy_kind(items) if case["mode"] == "getitem" else "n/a",
         has_none=any(it["k"] == "none" for it in items),
         zero_chunk=A.has_zero_chunk(arr["chunks"]),
+        neg_step_on_zero_chunk_axis=neg_step_on_zero_chunk_axis(items, arr, case["mode"]),
+        neg_step_start_below_minus_n=vindex_neg_step(items, lengths) if case["mode"] == "vindex" else C.neg_step_start_below_minus_n(items, lengths),
     )
+
+
+def vindex_neg_step(items, shape):
+    for ax, it in enumerate(items):
+        if it["k"] == "slice" and ax < len(shape):
+            a, b, s = it["v"]
+            if s is not None and s < 0 and a is not None and a < -shape[ax]:
+                return True
+    return False
 
 
 def ints_da_equal_chunk_offsets(items, arr):
@@ -143,6 +158,19 @@ def ints_da_equal_chunk_offsets(items, arr):
     return False
 
 
+def neg_step_on_zero_chunk_axis(items, arr, mode):
+    if mode == "blocks":
+        return False
+    axes_of = [[ax] for ax in range(len(items))] if mode == "vindex" else C.item_axes(items, len(arr["shape"]))
+    for it, axes in zip(items, axes_of):
+        if it["k"] == "slice" and axes and axes[0] < len(arr["shape"]):
+            s = it["v"][2]
+            ch = arr["chunks"][axes[0]]
+            if s is not None and s < 0 and len(ch) > 1 and 0 in ch:
+                return True
+    return False
+
+
 def check_getitem(case):
     arr = case["array"]
     items = case["index"]
@@ -150,8 +178,9 @@ def check_getitem(case):
     d = A.build_da(arr, x)
     nidx, didx = C.build_index(items, arr["shape"], case.get("bare", False))
     sig = base_sig(case)
-    sig["neg_step_start_below_minus_n"] = C.neg_step_start_below_minus_n(items, arr["shape"])
     sig["advanced_nonadjacent"] = C.advanced_nonadjacent(items)
+    sig["none_with_dask_indexer"] = C.none_with_dask_indexer(items)
+    sig["none_with_np_indexer"] = C.none_with_np_indexer(items)
     sig["ints_da_equal_chunk_offsets"] = ints_da_equal_chunk_offsets(items, arr)
     what = f"x{arr['shape']}chunks={arr['chunks']}[{describe_index(items)}]"
     status, want = reference(lambda: x[nidx])
@@ -206,6 +235,16 @@ def vindex_oracle(x, nkey):
     return x2[tuple(arrays)]
 
 
+def vindex_has_oob(case):
+    shape = case["array"]["shape"]
+    for ax, it in enumerate(case["index"]):
+        if it["k"] == "pts" and ax < len(shape):
+            n = shape[ax]
+            if any(v >= n or v < -n for v in it["v"]):
+                return True
+    return False
+
+
 def check_vindex(case):
     arr = case["array"]
     x = A.build_np(arr)
@@ -213,6 +252,7 @@ def check_vindex(case):
     nkey, dkey = vindex_parts(case)
     sig = base_sig(case)
     sig["vindex_mixed"] = any(it["k"] != "pts" for it in case["index"])
+    sig["vindex_zero_length_axis"] = any(it["k"] == "pts" and ax < len(arr["shape"]) and arr["shape"][ax] == 0 for ax, it in enumerate(case["index"]))
     what = f"x{arr['shape']}chunks={arr['chunks']}.vindex[{describe_index(case['index'])}]"
     status, want = reference(vindex_oracle, x, nkey)
     if status == "err":
@@ -220,7 +260,15 @@ def check_vindex(case):
             raise Reject(f"NumPy rejects the index: {want}")
         return both_raise_index_error(lambda: d.vindex[dkey], want, sig, what)
     with impl(what, **sig):
-        r = d.vindex[dkey]
+        try:
+            r = d.vindex[dkey]
+        except IndexError as e:
+            # NumPy does not bounds-check point arrays whose broadcast result is empty; dask checks every point array
+            # eagerly.  Refusing an out-of-range point is not a wrong answer.
+            if vindex_has_oob(case):
+                count("rejected-oob-point-numpy-does-not-check")
+                raise Reject(str(e))
+            raise
         got = A.compute(r)
     compare(got, want, sig, what)
     check_lazy(r, got, sig, what, nan_allowed=False)
@@ -259,6 +307,11 @@ def check_blocks(case):
             raise Reject(f"reference rejects the index: {res}")
         return both_raise_index_error(lambda: d.blocks[didx], res, sig, what)
     want, want_chunks = res
+    if any(len(c) == 0 for c in want_chunks):
+        # an array with zero blocks along an axis is not representable (chunks may not be an empty tuple); dask refuses
+        # with ValueError, which is not a wrong answer
+        count("rejected-empty-block-selection")
+        raise Reject("selection of zero blocks")
     with impl(what, **sig):
         r = d.blocks[didx]
         got = A.compute(r)
@@ -446,12 +499,15 @@ FULL = {"k": "slice", "v": [None, None, None]}
 
 @st.composite
 def getitem_case(draw):
-    arr = draw(A.array_spec(min_dims=0, max_dims=3, max_side=6, dtypes=("i8", "f8"), fills=("arange",), allow_zero_chunks=True))
+    if draw(st.integers(0, 9)) == 0:
+        # full-shape mask.  x[mask] ravels x first; reshape of arrays with empty chunks / zero-length axes split into
+        # several blocks fails inside dask.array.reshape (C24's subject), so those arrays are not combined with masks here
+        arr = draw(C.array_st(zero_chunk_pct=0, min_dims=1, max_dims=3, min_side=1, max_side=5, dtypes=("i8", "f8"), fills=("arange",)))
+        item = draw(C.mask_item_st(arr["shape"], arr["chunks"]))
+        return {"array": arr, "mode": "getitem", "index": [item], "bare": draw(st.booleans())}
+    arr = draw(C.array_st(min_dims=0, max_dims=3, max_side=6, dtypes=("i8", "f8"), fills=("arange",)))
     shape, chunks = arr["shape"], arr["chunks"]
     nd = len(shape)
-    if nd >= 1 and draw(st.integers(0, 9)) == 0:
-        item = draw(C.mask_item_st(shape, chunks))
-        return {"array": arr, "mode": "getitem", "index": [item], "bare": draw(st.booleans())}
     fancy_axis = draw(st.integers(0, nd - 1)) if nd and draw(st.integers(0, 99)) < 55 else None
     items = []
     for ax, n in enumerate(shape):
@@ -478,11 +534,14 @@ def getitem_case(draw):
 
 @st.composite
 def vindex_case(draw):
-    arr = draw(A.array_spec(min_dims=1, max_dims=3, max_side=6, dtypes=("i8", "f8"), fills=("arange",), allow_zero_chunks=True))
+    # (zero-length axes only occasionally: every point selection on them hits the vindex-zero-length-axis finding)
+    arr = draw(C.array_st(min_dims=1, max_dims=3, min_side=draw(st.sampled_from([1] * 9 + [0])), max_side=6, dtypes=("i8", "f8"), fills=("arange",)))
     shape = arr["shape"]
     nd = len(shape)
     pure = draw(st.integers(0, 9)) < 6
-    bshape = draw(st.sampled_from([[], [1], [2], [3], [5], [0], [2, 2], [3, 1], [1, 4], [2, 1, 2]]))
+    # (0-d NumPy point arrays are not generated: _vindex_array calls len() on them and raises TypeError; 0-d points are
+    # spelled as integers, which vindex accepts)
+    bshape = draw(st.sampled_from([[1], [2], [3], [5], [0], [2, 2], [3, 1], [1, 4], [2, 1, 2]]))
     if any(n == 0 for n in shape) and pure:
         bshape = [0]  # no valid point exists on an empty axis
     kinds = []
@@ -494,7 +553,7 @@ def vindex_case(draw):
     for ax, (kind, n) in enumerate(zip(kinds, shape)):
         if kind == "pts":
             # a shape broadcastable to bshape
-            k = draw(st.integers(0, len(bshape)))
+            k = draw(st.integers(1, len(bshape)))
             shp = [1 if (s != 1 and draw(st.integers(0, 4)) == 0) else s for s in bshape[len(bshape) - k :]]
             if n == 0:
                 shp = [0] if not shp else [0 if j == 0 else s for j, s in enumerate(shp)]
@@ -502,7 +561,9 @@ def vindex_case(draw):
             v = [draw(st.integers(-n, n - 1)) for _ in range(size)] if n else []
             if v and draw(st.integers(0, 29)) == 0:
                 v[draw(st.integers(0, len(v) - 1))] = draw(st.sampled_from([n, -n - 1]))
-            items.append({"k": "pts", "v": v, "shape": shp, "as": draw(st.sampled_from(["np", "list"]))})
+            # (a nested list cannot spell an empty array of >= 2 dims: it would change the shape)
+            as_ = "np" if (0 in shp and len(shp) > 1) else draw(st.sampled_from(["np", "list"]))
+            items.append({"k": "pts", "v": v, "shape": shp, "as": as_})
         elif kind == "slice":
             items.append(draw(C.slice_item_st(n)))
         elif kind == "int":
@@ -519,7 +580,7 @@ def vindex_case(draw):
 
 @st.composite
 def blocks_case(draw):
-    arr = draw(A.array_spec(min_dims=1, max_dims=3, max_side=6, dtypes=("i8", "f8"), fills=("arange",), allow_zero_chunks=True))
+    arr = draw(C.array_st(min_dims=1, max_dims=3, max_side=6, dtypes=("i8", "f8"), fills=("arange",)))
     grid = [len(c) for c in arr["chunks"]]
     nd = len(grid)
     list_axis = draw(st.integers(0, nd - 1)) if draw(st.integers(0, 2)) == 0 else None
@@ -530,7 +591,9 @@ def blocks_case(draw):
         else:
             kind = draw(st.sampled_from(["slice", "slice", "int", "full"]))
             if kind == "slice":
-                items.append(draw(C.slice_item_st(n, wide=False)))
+                # (mostly non-empty selections: an empty selection of blocks is out of domain, see check_blocks)
+                sl = C.slice_item_st(n, wide=False)
+                items.append(draw(st.one_of(sl.filter(lambda it, n=n: len(range(*slice(*it["v"]).indices(n))) > 0), sl)))
             elif kind == "int":
                 items.append(draw(C.int_item_st(n, oob=0.03)))
             else:
